@@ -12,6 +12,7 @@ import r_misc
 import r_fmt
 import r_cost
 import r_panic
+import r_feat
 
 NA = {
     "C17": "first-match order of a backtracking trie matcher over runtime rule lists: no structural "
@@ -54,7 +55,7 @@ PROPS = {
                      "dischargers and a guard-checked justification table",
     },
     "C11": {
-        "rules": [r_fmt.lexicon_rows_reader, r_misc.parallel,
+        "rules": [r_fmt.lexicon_rows_reader, r_feat.run, r_misc.parallel,
                   kind_scope("dictionary::lexicon", "dictionary::unknown")],
         "explanation": "FMT(reader side): parse_csv stores CSV column 1, 2, 3 into left_id, "
                        "right_id, word_cost (column -> WordParam::new parameter -> field, KIND "
@@ -70,7 +71,7 @@ PROPS = {
         "technique": "column-to-field dataflow rule, iterator-chain shape rules, kind propagation",
     },
     "C14": {
-        "rules": [r_fmt.run_c14, r_cost.run_c14, kind_scope("trainer::model")],
+        "rules": [r_fmt.run_c14, r_cost.run_c14, kind_scope("trainer::model"), r_misc.cache],
         "explanation": "FMT: each generated file's row template (delimiters, column count and "
                        "order, quoted surface first, feature last) matches what the compiler's "
                        "reader does with each column (parse_csv column->field mapping, "
@@ -87,7 +88,8 @@ PROPS = {
                      "sign-parity and scale-source rules",
     },
     "C16": {
-        "rules": [r_fmt.run_c16, r_cost.run_c16, kind_scope("trainer::model", "raw_connector")],
+        "rules": [r_fmt.run_c16, r_cost.run_c16, kind_scope("trainer::model", "raw_connector"),
+                  r_scorer.reserved0, r_scorer.rowrange],
         "explanation": "FMT: bigram.left/right lines are `id TAB csv` with 1-based ids (what "
                        "parse_features and the id == line+1 check require); bigram.cost lines are "
                        "`left-word feature / right-word feature TAB cost`, matching the order in "
@@ -100,7 +102,7 @@ PROPS = {
         "technique": "format-template decoding + reader dataflow, scale-source comparison",
     },
     "C18": {
-        "rules": [kind_scope("trainer", "mecab"), r_fmt.bigram_files],
+        "rules": [kind_scope("trainer", "mecab"), r_fmt.bigram_files, r_codec.run_c18],
         "explanation": "KIND over the trainer: unigram/left/right templates, id tables and "
                        "next-id counters are never mixed (same-family rule on "
                        "extract_feature_ids), extract_left/right results reach the matching "
@@ -229,7 +231,7 @@ PROPS = {
         "technique": "symbolic-expression and loop-shape rules over MIR, kind propagation",
     },
     "C03": {
-        "rules": [r_cand.cand, r_cand.unkfall],
+        "rules": [r_cand.cand, r_cand.unkfall, r_cand.unkgroup],
         "explanation": "CAND: at every processed position both lexicons are searched over the "
                        "same remaining text, every match is inserted and sets has_matched, and "
                        "gen_unk_words is called exactly once with that flag, the word start and "
@@ -308,7 +310,7 @@ PROPS = {
         "level_note": "Trusted: bincode/bincode_derive; rucrf's derived impls.",
         "technique": "sibling cross-check of encoder/decoder MIR",
     },    "C06": {
-        "rules": [r_map.run],
+        "rules": [r_map.run, r_scorer.rowrange],
         "explanation": "MAP rules over the MIR of Dictionary::map_connection_ids_from_iter, "
                        "reset_user_lexicon_from_reader and every map_connection_ids method: the "
                        "one mapper reaches every id-carrying component on all successful paths "
@@ -348,3 +350,45 @@ PROPS = {
                      "+ type-closure walk + compile_fail witnesses",
     },
 }
+
+
+# Rules added after the first full pass: text appended to the entries above.
+_ADDED = {
+    "C03": ("UNKGROUP: path-sensitive pass over (outcome of CharInfo::group(), value of the flag "
+            "the prefix loop tests): the prefix of run length is skipped on every path with "
+            "group()=true - also when the over-long run was omitted - and on no path with "
+            "group()=false.", "path-sensitive flag/branch correlation"),
+    "C06": ("ROWRANGE: every slice a RawConnector method takes from a U31x8 feature table is "
+            "aligned to rows of feat_template_size vectors ([k*w..(k+1)*w], k*w.., chunks of w).",
+            "symbolic index-range shape rule"),
+    "C07": ("ROWRANGE as for C06 (the accessors used by cost()). NARROW over the connector "
+            "functions: no narrowing cast and no 8/16-bit arithmetic on an id is left "
+            "undischarged (id 65535 is a legal id).", "symbolic index-range shape rule"),
+    "C10": ("NARROW-ARITH: no overflow-checked arithmetic in an 8/16-bit type below "
+            "Worker::tokenize / Token (ids up to u16::MAX are accepted by the builder). "
+            "VERIFYMAP: every Lexicon/UnkHandler::map_connection_ids call acts on a component of "
+            "a constructed dictionary or on a new component that verify() has accepted on every "
+            "path (the mapping table is indexed by these ids).", "dominance rule on verify()"),
+    "C11": ("FEATSPAN: abstract interpretation of the csv-core driving loop of "
+            "Lexicon::parse_csv over (field counter 0..4+, length variable {zero, only feature "
+            "bytes of this row, other}, base {rebased at the end of this row's cost field, "
+            "stale}, constant boolean flags): at the statement that cuts the feature string "
+            "every reachable state has a clean length and a fresh base, so the feature is the "
+            "remainder of its own row after the fourth field and an earlier (skipped) row leaves "
+            "nothing behind. Re-deriving the feature by comma-splitting text is reported.",
+            "path-sensitive abstract interpretation of the CSV parsing loop"),
+    "C14": ("CACHE: every Model method that mutates the model data resets the cached merged "
+            "model (a stale cache makes the user rows index past the merged tables).",
+            "who-may-write / must-kill rule on the cache field"),
+    "C16": ("RESERVED0 / ROWRANGE: the BOS/EOS row of the raw connector is zeroed over its full "
+            "width and rows are addressed by id * feat_template_size (the `including id 0` "
+            "clause for more than 8 templates).", "symbolic index-range shape rule"),
+    "C18": ("CODEC over the model image: the hand-written FeatureExtractor / TrainerConfig "
+            "codecs write and read the same fields in the same order (the id tables and next-id "
+            "counters decide `different strings -> different ids` after read_model).",
+            "sibling cross-check of encoder/decoder MIR"),
+}
+for _p, (_t, _k) in _ADDED.items():
+    PROPS[_p]["explanation"] += " " + _t
+    if _k not in PROPS[_p]["technique"]:
+        PROPS[_p]["technique"] += ", " + _k
